@@ -543,6 +543,9 @@ class Emitter:
             nm = p.get('name') or ('_unnamed%d' % len(params))
             if nm == 'self' and params:
                 nm = 'self_p'     # a parameter called `self` next to the object / closure parameter
+            if nm in [v[0] for v in ctx.locals.values()]:
+                # expanded parameter pack (Args&&... args): every element has the pack's name
+                nm = '%s_%d' % (nm, len(params))
             ctx.locals[p['id']] = (nm, ti)
             params.append(self.decl(ti, nm, byref=ti.ref))
         if kind == 'CXXConstructorDecl':
